@@ -49,6 +49,15 @@ CHECKS = {
              "survivors in the group (from /proc) and IsOn() are judged by TLC (ProcTreeTrace.tla).",
         note="Trusted: TLC, /proc/<pid>/stat, the kernel's process-group semantics; 'promptly' is a 12 s bound.",
         technique="TLA+ process-tree specification + TLC safety and liveness check; replay as real process trees; TLC trace judgement"),
+    "C06": dict(
+        category="model_checking", design_ref="DESIGN.md 5/C06",
+        text="FsModel.tla is the reference model of the filesystem API: the tree (directories, files with content) and one action per call (mkdir -p, write, touch, rm -rf, clean, read, ls, "
+             "recursive listings, sub-directories, glob, predicates, size, hash, copy to file / directory, cp -r with the destination rule, mv) giving class, expected outcome, value, tree and "
+             "frame. TLC checks the model's own invariants and action properties exhaustively (well-formed tree, read-only and refused calls change nothing, a copy keeps its source, changes "
+             "stay within the frame) and simulates random programs with the expectation of every call. Each program runs on the OS filesystem and on MemMapFs behind the recording gate; outcome, "
+             "value, full tree dump, handle balance, frame and copy-source preservation of every call are judged by TLC (FsModelTrace.tla).",
+        note="Trusted: TLC, the harness's own tree dump, MemMapFs/OsFs as backends; calls with kind conflicts or overlapping paths are only held to the frame conditions.",
+        technique="TLA+ reference model + TLC exhaustive check and random program simulation; replay on both backends; TLC trace judgement"),
     "C07": dict(
         category="model_checking", design_ref="DESIGN.md 5/C07",
         text="ArchiveRoundTrip.tla models a tree, the entries Zip writes for it (one per directory and per file, relative names) and what Unzip / the read-only views make of them; TLC checks "
